@@ -151,12 +151,13 @@ class NetworkXGraphStorageDisjoint:
                 self.lock.release()
 
         def extract_graph(self, graph_id: str) -> nx.Graph or None:
+            # the copy is taken under the lock: a node another thread adds meanwhile would change the
+            # graph under the copy
             self.lock.acquire()
             try:
-                graph = self.graphs[graph_id]
+                return self.graphs[graph_id].copy()
             finally:
                 self.lock.release()
-            return graph.copy()
 
         def get_graph(self, graph_id) -> nx.Graph:
             # return the store for this graph
